@@ -637,6 +637,9 @@ impl DbInner {
 		let might_wait_because_the_queue_is_full = self.options.with_background_thread;
 		#[cfg(not(any(test, feature = "instrumentation")))]
 		let might_wait_because_the_queue_is_full = true;
+		#[cfg(parity_db_verif)]
+		let might_wait_because_the_queue_is_full = might_wait_because_the_queue_is_full ||
+			crate::verif::EXTERNAL_WORKERS.load(Ordering::Relaxed);
 		if might_wait_because_the_queue_is_full && queue.bytes > MAX_COMMIT_QUEUE_BYTES {
 			log::debug!(target: "parity-db", "Waiting, queue size={}", queue.bytes);
 			self.commit_queue_full_cv.wait(&mut queue);
@@ -758,6 +761,9 @@ impl DbInner {
 		let might_wait_because_the_queue_is_full = self.options.with_background_thread;
 		#[cfg(not(any(test, feature = "instrumentation")))]
 		let might_wait_because_the_queue_is_full = true;
+		#[cfg(parity_db_verif)]
+		let might_wait_because_the_queue_is_full = might_wait_because_the_queue_is_full ||
+			crate::verif::EXTERNAL_WORKERS.load(Ordering::Relaxed);
 		if might_wait_because_the_queue_is_full {
 			// Wait if the queue is full.
 			let mut queue = self.log_queue_wait.work.lock();
@@ -1460,6 +1466,9 @@ impl Db {
 		let start_threads = opening_mode != OpeningMode::ReadOnly && options.with_background_thread;
 		#[cfg(not(any(test, feature = "instrumentation")))]
 		let start_threads = opening_mode != OpeningMode::ReadOnly;
+		#[cfg(parity_db_verif)]
+		let start_threads =
+			start_threads && !crate::verif::SUPPRESS_WORKER_THREADS.load(Ordering::Relaxed);
 		let commit_thread = if start_threads {
 			let commit_worker_db = db.clone();
 			Some(thread::spawn(move || {
@@ -1779,6 +1788,75 @@ impl Db {
 	pub fn clean_logs(&self) -> Result<()> {
 		self.inner.clean_logs()?;
 		Ok(())
+	}
+}
+
+#[cfg(parity_db_verif)]
+impl Db {
+	/// Run one pipeline stage once; returns whether the stage reported more work.
+	pub fn verif_process_commits(&self) -> Result<bool> {
+		self.inner.process_commits(&self.inner)
+	}
+
+	pub fn verif_process_reindex(&self) -> Result<bool> {
+		self.inner.process_reindex()
+	}
+
+	pub fn verif_flush_logs(&self, min_log_size: u64) -> Result<bool> {
+		self.inner.flush_logs(min_log_size)
+	}
+
+	/// Enact exactly one log record (or reach the end of the current log file).
+	pub fn verif_enact_one(&self) -> Result<bool> {
+		self.inner.enact_logs(false)
+	}
+
+	pub fn verif_clean_logs(&self) -> Result<bool> {
+		self.inner.clean_logs()
+	}
+
+	/// What a background worker does with the error its stage function returned.
+	pub fn verif_store_err(&self, e: Error) {
+		self.inner.store_err(Err(e))
+	}
+
+	pub fn verif_has_bg_err(&self) -> bool {
+		self.inner.bg_err.lock().is_some()
+	}
+
+	/// Body of one of the four worker threads spawned by `open_inner`:
+	/// 0 = commit worker, 1 = flush worker, 2 = log worker, 3 = cleanup worker.
+	pub fn verif_run_worker(&self, which: u8, min_log_size: u64) {
+		let db = self.inner.clone();
+		match which {
+			0 => db.store_err(Self::commit_worker(db.clone())),
+			1 => db.store_err(Self::flush_worker(db.clone(), min_log_size)),
+			2 => db.store_err(Self::log_worker(db.clone())),
+			_ => db.store_err(Self::cleanup_worker(db.clone())),
+		}
+	}
+
+	pub fn verif_shutdown(&self) {
+		self.inner.shutdown()
+	}
+
+	/// (queued commits, queued bytes, log files waiting to be read, dirty logs, logged bytes not
+	/// yet enacted, last enacted record, next reindex record)
+	pub fn verif_pipeline_counts(&self) -> (usize, usize, bool, usize, i64, u64, u64) {
+		let (commits, bytes) = {
+			let queue = self.inner.commit_queue.lock();
+			(queue.commits.len(), queue.bytes)
+		};
+		let logged = *self.inner.log_queue_wait.work.lock();
+		(
+			commits,
+			bytes,
+			self.inner.log.has_log_files_to_read(),
+			self.inner.log.num_dirty_logs(),
+			logged,
+			self.inner.last_enacted.load(Ordering::SeqCst),
+			self.inner.next_reindex.load(Ordering::SeqCst),
+		)
 	}
 }
 
